@@ -469,6 +469,13 @@ def setup(run):
                 return mult.fail("multiple/start-state/route:%s" % route(),
                                  "start vertices of the %d-multiple are %r, original %r"
                                  % (k, call.result.start_vertices, [s]), cs)
+            if s not in MG.vertices:
+                # the empty word has length 0 = 0 mod k: the start state must be a
+                # state of the result, or its own enumerators raise KeyError
+                # (seeded change C10-r2-1)
+                return mult.fail("multiple/start-state-not-a-vertex/k=%d/route:%s" % (k, route()),
+                                 "the start state %r is not a vertex of the %d-multiple "
+                                 "(no accepted word of length %d leaves it)" % (s, k, k), cs)
             _verts, got = fl.reachable_part(MG, s)
             if got != exp:
                 missing, extra = exp - got, got - exp
@@ -823,6 +830,14 @@ def operations(run, rng, F, M, labels, ks=(1, 2, 3, 4), roots="all", depth=0,
             blocks = sorted({fl.concat(word) for (_v, word) in edges})
             _ctx["route"] = base + ">multiple"
             try:
+                if not blocks:
+                    # shallower than k: the language of the k-multiple is {''}
+                    ws = lib(run, "multiple", "enumerate_words",
+                             lambda: list(G.enumerate_words(2)))
+                    run.monitor("multiple").require(
+                        ws == [""], "multiple/shallow-automaton/enumerate_words/route:%s" % base,
+                        "the %d-multiple of an automaton with no accepted word of length %d "
+                        "enumerates %r instead of ['']" % (k, k, ws))
                 if blocks and len(set(map(len, blocks))) == 1:
                     queries(run, rng, G, MG, blocks[:6], 2 if len(blocks) > 3 else 3,
                             sample=150 if len(blocks) > 3 else None)
